@@ -38,6 +38,7 @@ class _State:
         self.fexact = False          # Mode F: exact mul/div/sqrt instead of relaxed constants
         self.fork_where = False      # fork np.where conditions (always on in Mode F)
         self.box_scalars = False     # scalar(<python number>) gives a 0-d SymArray (for in-place accumulators)
+        self.pyfloats = False        # PyRFloat values (plain Python floats) are in use: arrays store them as NumPy numbers
         self.explorer = None
         self.side = []               # side constraints used on the current path (z3 Bool)
         self._side_ids = set()
@@ -557,6 +558,68 @@ class RFloat(SymFloat):
         return AND(NOT(AND(self.nan, self.pinf)), NOT(AND(self.nan, self.ninf)), NOT(AND(self.pinf, self.ninf)))
 
 
+class PyRFloat(RFloat):
+    """Mode R stand-in for a plain Python `float` (what a caller hands over when it writes `variable.value = 0.5`), as opposed
+    to the NumPy scalars and 0-d arrays every other symbolic number stands for.  Differences that matter to code under test:
+    arithmetic between Python numbers stays a Python number, true division / modulo by zero and 0.0 ** negative raise
+    ZeroDivisionError instead of giving inf/nan, and a float has none of ndarray's attributes (`size`, `item`, ...).  As soon as
+    NumPy touches the value (`scalar(x)`, any ufunc or function, an array built from it) the result is a NumPy value: `tf()`
+    strips the flavour."""
+
+    __slots__ = ()
+    __hash__ = None
+
+    @staticmethod
+    def of(x):
+        x = tf(x)
+        return PyRFloat(x.v, x.nan, x.pinf, x.ninf)
+
+    def _plain(self):
+        return RFloat(self.v, self.nan, self.pinf, self.ninf)
+
+    def _bin(self, o, f, swap=False):
+        if isinstance(o, MaskedSelection):
+            return NotImplemented
+        pyo = isinstance(o, PyRFloat) or (isinstance(o, (int, float)) and not isinstance(o, (np.generic, bool)))
+        if not pyo:
+            return RFloat._bin(self._plain(), o, f, swap)
+        if f in (_div, _remainder, _pow):
+            den, num = (self, tf(o)) if swap else (tf(o), self)
+            if f is _pow:
+                # base ** exponent: base = num when not swapped
+                base, ex = (tf(o), self) if swap else (self, tf(o))
+                if bool(SymBool(AND(base.zero(), ex.neg_sign()))):
+                    raise ZeroDivisionError("0.0 cannot be raised to a negative power")
+            elif bool(SymBool(den.zero())):
+                raise ZeroDivisionError("float division by zero" if f is _div else "float modulo")
+        r = RFloat._bin(self._plain(), o._plain() if isinstance(o, PyRFloat) else o, f, swap)
+        return PyRFloat.of(r) if isinstance(r, RFloat) else r
+
+    def __neg__(self):
+        return PyRFloat.of(_neg(self._plain()))
+
+    def __abs__(self):
+        return PyRFloat.of(_abs(self._plain()))
+
+    def __pos__(self):
+        return self
+
+    def _no(name):           # noqa: N805
+        def get(self):
+            raise AttributeError(f"'float' object has no attribute '{name}'")
+        return property(get)
+
+    for _n in ("ndim", "shape", "size", "dtype", "squeeze", "astype", "item", "flatten", "tolist", "sum", "max", "min", "copy", "T"):
+        locals()[_n] = _no(_n)
+    del _n, _no
+
+    def __deepcopy__(self, memo):
+        return self
+
+    def __copy__(self):
+        return self
+
+
 def _bid(b):
     return bool(b) if isc(b) else b.get_id()
 
@@ -1065,7 +1128,7 @@ def var(name, special=False):
 def tf(o):
     """to symbolic float scalar"""
     if isinstance(o, SymFloat):
-        return o
+        return o._plain() if type(o) is PyRFloat else o
     if isinstance(o, SymBool):
         if isc(o.e):
             return const(1.0 if o.e else 0.0)
@@ -1602,6 +1665,10 @@ class SymArray:
 
     def __init__(self, a):
         assert isinstance(a, np.ndarray) and a.dtype == object, type(a)
+        if S.pyfloats:
+            for i, e in enumerate(a.flat):
+                if type(e) is PyRFloat:
+                    a.flat[i] = e._plain()      # NumPy stores a float64, not the Python object
         self.a = a
 
     shape = property(lambda s: s.a.shape)
